@@ -793,6 +793,8 @@ fn text_blocks(text: &str) -> Vec<(String, usize, usize)> {
 }
 
 pub fn run_c02(ctx: &Ctx) -> i32 {
+    let t_c02 = std::time::Instant::now();
+    let mut sect: Vec<(String, f64)> = vec![];
     let st = build_state();
     // (a) every convertible project: closed, checker silent
     let nfiles = st.files.iter().filter(|f| matches!(f.fmt, Fmt::Ctehexml | Fmt::Cte)).count();
@@ -821,13 +823,15 @@ pub fn run_c02(ctx: &Ctx) -> i32 {
             other => ctx.violation(&format!("baseline:{:?}", other), &format!("{}: {:?}", fname, v), json!({"file": f.path})),
         }
     }
+    sect.push(("a".into(), t_c02.elapsed().as_secs_f64()));
     // generated projects
     let specs = crate::projgen::all_specs(Tier::Quick);
     let gstride = ctx.tier.pick(9, 1);
-    let mut gen_n = 0;
-    for s in specs.iter().step_by(gstride) {
+    let sel: Vec<&crate::projgen::Spec> = specs.iter().step_by(gstride).collect();
+    let gen_n = sel.len();
+    par_for(sel.len() as u64, |gi| {
+        let s = sel[gi as usize];
         ctx.eval(1);
-        gen_n += 1;
         match corpus::convert_text(&crate::projgen::ctehexml_text(s), false) {
             corpus::Outcome::Ok(m) => {
                 ctx.nontriv(1);
@@ -930,7 +934,8 @@ pub fn run_c02(ctx: &Ctx) -> i32 {
                 }
             }
         }
-    }
+    });
+    sect.push(("generated".into(), t_c02.elapsed().as_secs_f64()));
     // (b') name clashes across definition kinds: a definition of kind B (and all references to it) is renamed to the
     // name of a definition of kind A; every kind has its own namespace, so the conversion must give the same model
     let mut clash_n = 0;
@@ -997,10 +1002,34 @@ pub fn run_c02(ctx: &Ctx) -> i32 {
                         Some("panic") => ctx.violation(&format!("panic:{}", panic_key(v["panic"].as_str().unwrap_or(""))), &format!("name clash {} ~ {} panics: {}", kb, ka, v["panic"]), case),
                         _ => {} // an error is an acceptable answer
                     }
+                    // ... and with the renamed definition itself removed: the references to it now name something that
+                    // only exists as a definition of the other kind - rejected, or closed
+                    let hdr = format!("\"{}\" = {}", a.name, kb);
+                    if let Some(p0) = out.lines().position(|l| l.trim() == hdr) {
+                        let lines: Vec<&str> = out.split_inclusive('\n').collect();
+                        if let Some(p1) = (p0..lines.len()).find(|i| lines[*i].trim() == "..") {
+                            let out2: String = lines[..p0].iter().chain(lines[p1 + 1..].iter()).copied().collect();
+                            clash_n += 1;
+                            ctx.eval(1);
+                            let v2 = convert_outcome(Fmt::Ctehexml, &out2);
+                            let case2 = json!({"part": "name-clash", "project": tname, "renamed": format!("{} {:?} -> {:?} (the name of a {})", kb, b.name, a.name, ka), "then": "the renamed definition removed"});
+                            match v2["verdict"].as_str() {
+                                Some("ok") => {
+                                    ctx.nontriv(1);
+                                    if v2["n_defects"].as_u64().unwrap_or(0) > 0 || v2["checker_warnings"].as_u64().unwrap_or(0) > 0 {
+                                        ctx.violation(&format!("reference-resolved-by-a-definition-of-another-kind:{}", v2["defects"][0].as_str().unwrap_or("checker").split(':').next().unwrap_or("")), &format!("references to a removed {} named {:?} are taken for the {} of that name: the model has missing/nil links: {}", kb, a.name, ka, v2["defects"]), case2);
+                                    }
+                                }
+                                Some("panic") => ctx.violation(&format!("panic:{}", panic_key(v2["panic"].as_str().unwrap_or(""))), &format!("removed {} whose name a {} shares: {}", kb, ka, v2["panic"]), case2),
+                                _ => {}
+                            }
+                        }
+                    }
                 }
             }
         }
     }
+    sect.push(("clash".into(), t_c02.elapsed().as_secs_f64()));
     // (b'') a referenced definition (with all references to it) renamed to an unusual but legal name: nothing else changes
     let mut awkward_n = 0;
     {
@@ -1072,6 +1101,7 @@ pub fn run_c02(ctx: &Ctx) -> i32 {
             }
         }
     }
+    sect.push(("unusual-names".into(), t_c02.elapsed().as_secs_f64()));
     // (d) the same breakage on the parsed project data (what an importer, a script or a later pass hands to the
     // converter): one name reference of one element redirected to an unknown name, one element renamed under its
     // referrers, one catalogue entry or schedule removed
@@ -1166,6 +1196,7 @@ pub fn run_c02(ctx: &Ctx) -> i32 {
         ctx.eval(data_n);
         ctx.sample(json!({"part": "data-level", "project": "cubo.ctehexml", "edit": "windows[0] .wall -> unknown", "oracle": "Err, or a closed model"}));
     }
+    sect.push(("data-level".into(), t_c02.elapsed().as_secs_f64()));
     // (e) a WINDOW block moved to another place of the document (its parent is the block it follows): behind the first
     // block of every other type and to the very beginning of the building description
     let mut moved_n = 0u64;
@@ -1209,6 +1240,7 @@ pub fn run_c02(ctx: &Ctx) -> i32 {
         }
         ctx.eval(moved_n);
     }
+    sect.push(("moved-window".into(), t_c02.elapsed().as_secs_f64()));
     // (f) the verdict on a damaged project does not depend on what the process converted before: every "definition
     // removed" variant of the smallest projects as the only conversion of a fresh process and straight after the
     // intact project in one process
@@ -1247,6 +1279,7 @@ pub fn run_c02(ctx: &Ctx) -> i32 {
         });
         hist_n += hidx.len() as u64;
     }
+    sect.push(("history".into(), t_c02.elapsed().as_secs_f64()));
     // (c) single broken references / removed definitions
     let idxs = c02_indices(&st, ctx.tier);
     let tally = Mutex::new((0u64, 0u64, 0u64));
@@ -1321,6 +1354,8 @@ pub fn run_c02(ctx: &Ctx) -> i32 {
         let fi = st.offsets.partition_point(|o| *o <= *i) - 1;
         ctx.sample(json!({"edit": st.files[fi].describe(*i - st.offsets[fi]).1}));
     }
+    sect.push(("single-edits".into(), t_c02.elapsed().as_secs_f64()));
+    ctx.note("seconds_at_end_of_section", json!(sect));
     ctx.sample(json!({"part": "closure", "file": "cubo.ctehexml", "oracle": "ids unique per collection, 17 reference kinds resolve, no nil id, bemodel::check empty"}));
     ctx.finish(
         "fault_enumeration",
